@@ -19,7 +19,20 @@ def run(ctx):
             for assort in (0, 1):
                 waff.append('WAFF %d %d %d %d' % (cid, K, L, assort))
                 cid += 1
-    res = ctx.component('K-LAYOUT', cases + waff)
+    # a tensor that already holds one shape is resized to another (same or different element count): all ordered pairs <= 3 + random <= 6
+    rz = []
+    rid = 200000
+    shapes = [(a, b, c) for a in range(1, 4) for b in range(1, 4) for c in range(1, 4)]
+    for s1 in shapes:
+        for s2 in shapes:
+            rz.append('RESIZE %d %d %d %d %d %d %d' % ((rid,) + s1 + s2))
+            rid += 1
+    for _ in range(ctx.budget(300, 5000)):
+        s1 = tuple(ctx.rng.rint(1, 6) for _ in range(3))
+        s2 = ctx.rng.shuffle(list(s1)) if ctx.rng.chance(0.5) else [ctx.rng.rint(1, 6) for _ in range(3)]
+        rz.append('RESIZE %d %d %d %d %d %d %d' % ((rid,) + s1 + tuple(s2)))
+        rid += 1
+    res = ctx.component('K-LAYOUT', cases + waff + rz)
     # ---- oracle on the implementation alone: the documented formula, computed here independently
     n_eval = 0
     nontrivial = 0
@@ -67,6 +80,19 @@ def run(ctx):
             if rows != want:
                 ctx.violation('writer', 'write_affinity_file does not emit entry (k,q) of layer a at row k, column q of block a',
                               {'case': line, 'impl_rows': rows, 'expected_rows': want})
+    if res:
+        for line in rz:
+            t = line.split()
+            R, C, T = int(t[5]), int(t[6]), int(t[7])
+            tr = res['impl'].get('Z ' + t[1])
+            if not tr:
+                continue
+            n_eval += 1
+            d = {x[0]: x[1:] for x in tr}
+            want = [str(a * R * C + j * R + i) for a in range(T) for j in range(C) for i in range(R)]
+            if d.get('dims') != [str(R), str(C), str(T), str(R * C * T)] or d.get('idx') != want or d.get('zeroed') != ['1']:
+                ctx.violation('layout-after-resize', 'after resize(%d,%d,%d) of a tensor that held %sx%sx%s the layout is not a*R*C + j*R + i on the new dimensions (or the data is not zeroed)' % (R, C, T, t[2], t[3], t[4]),
+                              {'case': line, 'impl': d})
     ctx.oracle.update({'evaluations': n_eval, 'distinct_nontrivial': nontrivial,
                        'rule': 'exhaustive: every dimension triple R,C,T <= %d (all index triples each) and every K <= 6, L <= 4, both tensor kinds for the writer; non-trivial = more than one element' % maxdim})
     ctx.extra['exhaustive'] = True
